@@ -654,6 +654,21 @@ def _split_tuple_assign(st: ast.stmt) -> Optional[List[ast.stmt]]:
     return [ast.copy_location(ast.Assign(targets=[t], value=v), st) for t, v in zip(ts, vs)]
 
 
+def _pass_plain_locals(fn) -> bool:
+    """`x: T = v` for a local name is `x = v` (annotations of locals are not evaluated)"""
+    changed = False
+    for node in ast.walk(fn):
+        for fld in ("body", "orelse", "finalbody"):
+            b = getattr(node, fld, None)
+            if not (isinstance(b, list) and b and isinstance(b[0], ast.stmt)):
+                continue
+            for i, st in enumerate(b):
+                if isinstance(st, ast.AnnAssign) and isinstance(st.target, ast.Name) and st.value is not None:
+                    b[i] = ast.copy_location(ast.Assign(targets=[st.target], value=st.value), st)
+                    changed = True
+    return changed
+
+
 def _pass_split_swaps(fn) -> bool:
     changed = False
     for node in ast.walk(fn):
@@ -848,6 +863,7 @@ def inline_tree(tree: ast.Module, keep: Iterable[str]) -> ast.Module:
             sub.body = si.block(sub.body)
     for cls, fn in units:
         try:
+            _pass_plain_locals(fn)
             _pass_split_swaps(fn)
             _pass_alias(fn, cls)
         except RecursionError:
